@@ -42,11 +42,35 @@ struct Blk {
     started_by_replace: bool,
 }
 
+/// An action the simulator has fired (taken out of its timer slot) whose PaddingSent / BlockingBegin
+/// has not been reported yet.
+#[derive(Clone, Debug)]
+struct Fe {
+    p: Pending,
+    /// blocking was active on some side when it was fired
+    blocking_at_fire: bool,
+    /// a newer action or a Cancel of the action timer was returned for the machine afterwards, at this time
+    overtaken_at: Option<u64>,
+}
+
+/// A newer action (or a Cancel of the action timer) for machine `m` was returned at time `ta`: whatever
+/// the simulator has fired for that machine but not yet reported is superseded by it.
+fn overtake(s: &mut Side, m: usize, ta: u64, _any_blocking: bool) {
+    if m < s.firedq.len() {
+        for f in s.firedq[m].iter_mut() {
+            if f.overtaken_at.is_none() {
+                f.overtaken_at = Some(ta);
+            }
+        }
+    }
+}
+
 struct Side {
     pend: Vec<Option<Pending>>,
-    firedq: Vec<Vec<Pending>>,
+    firedq: Vec<Vec<Fe>>,
     timer: Vec<Option<u64>>,
-    timer_firedq: Vec<Vec<u64>>,
+    /// (expiry, blocking active on some side when it expired, a Cancel / superseding UpdateTimer was returned at)
+    timer_firedq: Vec<Vec<(u64, bool, Option<u64>)>>,
     begin_expect: Vec<Vec<u64>>,
     blk: Option<Blk>,
     /// C16 cannot be evaluated until the next BlockingEnd (a begin could not be linked to its action)
@@ -110,6 +134,7 @@ pub fn check_timeline(c: &SimCase, run: &SimRun) -> (Vec<Viol>, Stats) {
         while fi < fires.len() && fires[fi].events_seen <= i {
             let f = &fires[fi];
             fi += 1;
+            let any_blocking_now = sides.iter().any(|s| s.blk.is_some() || s.blk_unknown || s.premature || s.firedq.iter().flatten().any(|f| f.p.kind == 2));
             let s = &mut sides[f.client as usize];
             match &f.fired {
                 Fired::Action(a) => match pending_of(a, f.t) {
@@ -129,7 +154,7 @@ pub fn check_timeline(c: &SimCase, run: &SimRun) -> (Vec<Viol>, Stats) {
                             bump("block_actions_applied_before_an_earlier_event");
                         }
                         if m < s.firedq.len() {
-                            s.firedq[m].push(p);
+                            s.firedq[m].push(Fe { p, blocking_at_fire: any_blocking_now, overtaken_at: None });
                         }
                     }
                 },
@@ -137,12 +162,12 @@ pub fn check_timeline(c: &SimCase, run: &SimRun) -> (Vec<Viol>, Stats) {
                     let m = machine.into_raw();
                     if m < s.timer.len() && s.timer[m] == Some(f.t) {
                         s.timer[m] = None;
-                        s.timer_firedq[m].push(f.t);
+                        s.timer_firedq[m].push((f.t, any_blocking_now, None));
                     } else {
                         let cur = if m < s.timer.len() { format!("{:?}", s.timer[m]) } else { "unknown machine".into() };
                         viol!(18, "C18/timer-expired-but-not-running", i, "{} machine {m}: the simulator expired an internal timer at t={}, by the UpdateTimer contract the timer is {cur}", side_name(f.client), f.t);
                         if m < s.timer_firedq.len() {
-                            s.timer_firedq[m].push(f.t);
+                            s.timer_firedq[m].push((f.t, any_blocking_now, None));
                         }
                     }
                 }
@@ -158,10 +183,10 @@ pub fn check_timeline(c: &SimCase, run: &SimRun) -> (Vec<Viol>, Stats) {
                         s.pend[m] = None;
                     }
                 }
-                if let Some(pos) = s.firedq[m].iter().position(|p| p.due < t) {
-                    let p = s.firedq[m].remove(pos);
+                if let Some(pos) = s.firedq[m].iter().position(|f| f.p.due < t) {
+                    let p = s.firedq[m].remove(pos).p;
                     viol!(17, "C17/fired-but-not-reported", i, "{} machine {m}: action {p:?} was fired but no {} was reported at t={}", side_name(cl), if p.kind == 1 { "PaddingSent" } else { "BlockingBegin" }, p.due);
-                    s.firedq[m].retain(|p| p.due >= t);
+                    s.firedq[m].retain(|f| f.p.due >= t);
                 }
                 if let Some(x) = s.timer[m] {
                     if x < t {
@@ -169,10 +194,10 @@ pub fn check_timeline(c: &SimCase, run: &SimRun) -> (Vec<Viol>, Stats) {
                         s.timer[m] = None;
                     }
                 }
-                if let Some(pos) = s.timer_firedq[m].iter().position(|x| *x < t) {
-                    let x = s.timer_firedq[m][pos];
+                if let Some(pos) = s.timer_firedq[m].iter().position(|x| x.0 < t) {
+                    let x = s.timer_firedq[m][pos].0;
                     viol!(18, "C18/timer-end-missing", i, "{} machine {m}: internal timer expired at t={x} without TimerEnd, simulated time is now {t}", side_name(cl));
-                    s.timer_firedq[m].retain(|x| *x >= t);
+                    s.timer_firedq[m].retain(|x| x.0 >= t);
                 }
                 if let Some(pos) = s.begin_expect[m].iter().position(|x| *x < t) {
                     let x = s.begin_expect[m][pos];
@@ -206,8 +231,35 @@ pub fn check_timeline(c: &SimCase, run: &SimRun) -> (Vec<Viol>, Stats) {
                 let kind = if matches!(e.event, TriggerEvent::PaddingSent { .. }) { 1u8 } else { 2 };
                 let mut linked: Option<Pending> = None;
                 if m < s.firedq.len() {
-                    if let Some(pos) = s.firedq[m].iter().position(|p| p.kind == kind && p.due == t) {
-                        linked = Some(s.firedq[m].remove(pos));
+                    if let Some(pos) = s.firedq[m].iter().position(|f| f.p.kind == kind && f.p.due == t) {
+                        let fe = s.firedq[m].remove(pos);
+                        if let Some(at) = fe.overtaken_at {
+                            // the property: a newer action or a Cancel supersedes the pending one, which then never fires
+                            let when = if at < fe.p.due { "before-it-was-due" } else { "at-the-instant-it-was-due" };
+                            // a block takes effect when the simulator fires it (known finding K3), so what its own
+                            // effect releases or ends can be reported before its BlockingBegin
+                            let ctx = if fe.p.kind == 2 {
+                                "block-applied-when-fired"
+                            } else if fe.blocking_at_fire {
+                                "padding-fired-while-blocking-was-active"
+                            } else {
+                                "no-blocking-involved"
+                            };
+                            bump("superseded_or_cancelled_actions_reported_nevertheless");
+                            viols.push(Viol {
+                                prop: 17,
+                                sig: format!("C17/superseded-action-still-reported/{when}/{ctx}"),
+                                msg: format!(
+                                    "{} machine {m}: {} at t={t} stems from {:?}, but a newer action or a Cancel of the action timer was returned for that machine at t={at}, before this report | trace around: {:?}",
+                                    side_name(e.client),
+                                    if kind == 1 { "PaddingSent" } else { "BlockingBegin" },
+                                    fe.p,
+                                    fmt_window(ev, i, 8, 3)
+                                ),
+                                index: i,
+                            });
+                        }
+                        linked = Some(fe.p);
                     }
                 }
                 match &linked {
@@ -271,7 +323,7 @@ pub fn check_timeline(c: &SimCase, run: &SimRun) -> (Vec<Viol>, Stats) {
                 } else {
                     // a zero-duration block fired at this very instant whose begin is not yet processed: the
                     // simulator reports the end before the begin
-                    let zero_pending = s.firedq.iter().flatten().any(|p| p.kind == 2 && p.due == t && p.duration == 0);
+                    let zero_pending = s.firedq.iter().flatten().any(|f| f.p.kind == 2 && f.p.due == t && f.p.duration == 0);
                     match s.blk.take() {
                         None => {
                             let sig = if zero_pending {
@@ -323,11 +375,11 @@ pub fn check_timeline(c: &SimCase, run: &SimRun) -> (Vec<Viol>, Stats) {
                             }
                         } else {
                             // a block allowing bypass has fired at this very instant (its begin is concurrent)
-                            let concurrent_bypass_block = s.firedq.iter().flatten().any(|p| p.kind == 2 && p.bypass && p.due == t);
+                            let concurrent_bypass_block = s.firedq.iter().flatten().any(|f| f.p.kind == 2 && f.p.bypass && f.p.due == t);
                             let sig = if e.bypass && token_ok && !b.bypass_ok {
                                 if b.last_updater_bypass || concurrent_bypass_block {
                                     "C16/bypass-escape/earlier-updater-forbade-bypass"
-                                } else if s.firedq.iter().flatten().any(|p| p.kind == 2 && p.bypass && p.due > t) {
+                                } else if s.firedq.iter().flatten().any(|f| f.p.kind == 2 && f.p.bypass && f.p.due > t) {
                                     // the simulator has already applied a bypass-allowing block that is only due later
                                     "C16/bypass-escape/bypass-block-applied-before-due"
                                 } else if s.premature {
@@ -363,9 +415,24 @@ pub fn check_timeline(c: &SimCase, run: &SimRun) -> (Vec<Viol>, Stats) {
             TriggerEvent::TimerEnd { machine } => {
                 let m = machine.into_raw();
                 if m < s.timer.len() {
-                    if let Some(pos) = s.timer_firedq[m].iter().position(|x| *x == t) {
-                        s.timer_firedq[m].remove(pos);
+                    if let Some(pos) = s.timer_firedq[m].iter().position(|x| x.0 == t) {
+                        let (_, blocking_at_fire, overtaken_at) = s.timer_firedq[m].remove(pos);
                         bump("timers_ended_at_expiry");
+                        if let Some(at) = overtaken_at {
+                            let when = if at < t { "before-its-expiry" } else { "at-the-instant-of-its-expiry" };
+                            let ctx = if blocking_at_fire { "expired-while-blocking-was-active" } else { "no-blocking-involved" };
+                            bump("cancelled_or_superseded_timers_ended_nevertheless");
+                            viols.push(Viol {
+                                prop: 18,
+                                sig: format!("C18/cancelled-or-superseded-timer-still-ended/{when}/{ctx}"),
+                                msg: format!(
+                                    "{} machine {m}: TimerEnd at t={t}, but a Cancel of the internal timer or an UpdateTimer that sets it anew was returned for that machine at t={at}, before this report | trace around: {:?}",
+                                    side_name(e.client),
+                                    fmt_window(ev, i, 8, 3)
+                                ),
+                                index: i,
+                            });
+                        }
                     } else {
                         viol!(18, "C18/timer-end-unexpected", i, "{} machine {m}: TimerEnd at t={t}, but no timer of that machine expired then (running timer by the UpdateTimer contract: {:?})", side_name(e.client), s.timer[m]);
                     }
@@ -379,6 +446,7 @@ pub fn check_timeline(c: &SimCase, run: &SimRun) -> (Vec<Viol>, Stats) {
         while ai < acts.len() && acts[ai].event_index == i {
             let a = &acts[ai];
             ai += 1;
+            let any_blocking = sides.iter().any(|s| s.blk.is_some() || s.blk_unknown || s.premature);
             let s = &mut sides[a.client as usize];
             let ta = a.t;
             if a.client != e.client || ta != t {
@@ -388,6 +456,7 @@ pub fn check_timeline(c: &SimCase, run: &SimRun) -> (Vec<Viol>, Stats) {
                 TriggerAction::SendPadding { timeout, machine, .. } | TriggerAction::BlockOutgoing { timeout, machine, .. } => {
                     let m = machine.into_raw();
                     let due = ta.saturating_add(ns(timeout));
+                    overtake(s, m, ta, any_blocking);
                     if let Some(old) = s.pend[m].take() {
                         bump("actions_superseded");
                         if old.due == ta {
@@ -401,8 +470,18 @@ pub fn check_timeline(c: &SimCase, run: &SimRun) -> (Vec<Viol>, Stats) {
                 }
                 TriggerAction::Cancel { machine, timer } => {
                     let m = machine.into_raw();
+                    if matches!(timer, Timer::Action | Timer::All) {
+                        overtake(s, m, ta, any_blocking);
+                    }
                     if matches!(timer, Timer::Action | Timer::All) && s.pend[m].take().is_some() {
                         bump("actions_cancelled");
+                    }
+                    if matches!(timer, Timer::Internal | Timer::All) {
+                        for x in s.timer_firedq[m].iter_mut() {
+                            if x.2.is_none() {
+                                x.2 = Some(ta);
+                            }
+                        }
                     }
                     if matches!(timer, Timer::Internal | Timer::All) && s.timer[m].take().is_some() {
                         bump("timers_cancelled");
@@ -421,6 +500,11 @@ pub fn check_timeline(c: &SimCase, run: &SimRun) -> (Vec<Viol>, Stats) {
                     }
                     let sets = *replace || cur.is_none() || new > cur.unwrap();
                     if sets {
+                        for x in s.timer_firedq[m].iter_mut() {
+                            if x.2.is_none() {
+                                x.2 = Some(ta);
+                            }
+                        }
                         if cur.is_some() {
                             bump("timers_superseded");
                         } else {
